@@ -107,6 +107,7 @@ def make_graph(rng, quick, hostile=False):
     ds = nsgen.serialise(g, rng, value_xml=parseprops.value_xml)
     return g, ds
 
+REG_REQS = []; REG_META = []
 def correspondence(ctx, prop, rng, work, reqs, meta, G, tables, g, ci, inc_choices=(True, False)):
     outs = {}
     for uri in g.uris:
@@ -116,6 +117,8 @@ def correspondence(ctx, prop, rng, work, reqs, meta, G, tables, g, ci, inc_choic
             G2 = copy.deepcopy(G)                                  # the write must not be influenced by (or influence) other writes here
             out = impl_write(G2, uri, inc, newver)
             reqs.append(write_request(tables, uri, inc, newver, "out.xml")); meta.append((ci, uri, inc, out))
+            REG_REQS.append([Sym("write_regular")] + write_request(tables, uri, inc, newver, "out.xml")[1:])
+            REG_META.append((ci, uri, inc, write_causes(G, tables, uri, out, inc)))
             outs[(uri, inc)] = out
     return outs
 
@@ -300,6 +303,17 @@ def run(ctx, prop):
     finally:
         shutil.rmtree(work, ignore_errors=True)
     ans = vlib.run_model(reqs, shards=8)
+    # the proved-sound decision procedure for the regularity conditions of C06_node_elements / C06_first_uri, on every generated case;
+    # it must agree with the harness's own attribution of the two recorded findings that are its negation
+    rans = vlib.run_model(REG_REQS, shards=8)
+    nreg = 0
+    for (ci, uri, inc, causes), ra in zip(REG_META, rans):
+        reg = vlib.untext(ra) == "true"
+        nreg += reg
+        neg = bool(causes & {"empty-namespace", "namespace-without-base-use"})
+        if reg and neg: ctx.disagree("regularity", dict(case=ci, uri=uri, inc=inc), "harness attributes %r" % sorted(causes), "regular_b = true")
+    ctx.notes["cases_in_domain_of_C06_node_elements"] = "%d of %d" % (nreg, len(REG_REQS))
+    del REG_REQS[:]; del REG_META[:]
     uns = 0
     for (ci, uri, inc, out), a in zip(meta, ans):
         mo = dec_doc(a)
